@@ -12,9 +12,10 @@ struct Case {
   bool compress = true;
   bool as_message = false;
   std::string address;
-  template <class A> void io(A &a) { a(vals)(linelength)(precision)(compress)(as_message)(address); }
+  avg::Seg seg;   // empty: the list is handed to the printer value by value; else some runs are handed over already compressed (arrays: their own V::seg)
+  template <class A> void io(A &a) { a(vals)(linelength)(precision)(compress)(as_message)(address); if (a.more()) a(seg); }   // seg: optional trailing field
   std::string describe() const {
-    return "vals={" + avg::show(vals, {}) + "} linelength=" + std::to_string(linelength) + " precision=" + std::to_string(precision) + " compress=" + std::to_string(compress) + (as_message ? " address=" + address : "");
+    return "vals={" + avg::show(vals, seg) + "} linelength=" + std::to_string(linelength) + " precision=" + std::to_string(precision) + " compress=" + std::to_string(compress) + (as_message ? " address=" + address : "");
   }
 };
 const char *vf_property() { return "C10"; }
@@ -111,6 +112,11 @@ Case vf_generate() {
   bool single_type = vf::chance(35);
   char one[2] = {TYPES[vf::pickn(15)], 0};
   gen_list(c.vals, 12, true, single_type ? one : nullptr);
+  if (vf::chance(35)) {
+    // the printer also gets lists in which runs already are ranges ('n x v', arithmetic with delta), at top level and inside arrays
+    for (auto &v : c.vals) if (v.t == 'a' && vf::chance(60)) v.seg = avg::gen_seg(v.el, 70, false, "ich");
+    c.seg = avg::gen_seg(c.vals, 70, false, "ich");   // integer runs only and none that wrap around the limits of the type: the printer itself never makes other counting ranges, the text format cannot express wrapping ones, and how a float range with an inexact step expands is nowhere defined
+  }
   c.linelength = vf::chance(40) ? 80 : vf::pick<int>(10, 120);
   c.precision = vf::chance(40) ? 2 : vf::pick<int>(0, 9);
   c.compress = vf::coin();
@@ -127,7 +133,8 @@ static bool known_excluded(const Case &c, vf::Ctx &ctx) {
 std::string vf_run(const Case &c, vf::Ctx &ctx) {
   if (known_excluded(c, ctx)) return "";
   std::vector<rtosc_arg_val_t> av;
-  avg::build(av, c.vals, avg::plain_seg(c.vals.size()), true);
+  if (c.seg.empty()) avg::build(av, c.vals, avg::plain_seg(c.vals.size()), true);
+  else { avg::build(av, c.vals, c.seg, false); ctx.count("class.input_with_ranges"); }
   rtosc_print_options opt;
   opt.lossless = true;
   opt.floating_point_precision = c.precision;
